@@ -326,3 +326,119 @@ Proof.
     intros q b Hq. upd_cases Hq; [discriminate|auto].
   - eapply (Hgen (LDone RTimeout) (chans s)); eauto; try reflexivity; try discriminate.
 Qed.
+
+Lemma Inv4_work_step s w wk t s' :
+  Inv1 s -> Inv2 s -> Inv4 s -> nth_error (works s) w = Some wk -> work_rel s w wk t s' -> Inv4 s'.
+Proof.
+  intros HJ HD HI Hw Hr.
+  assert (Hgen : forall f' sbo chs',
+            (forall sb, sbo = Some sb -> sres sb = [] \/ wsub wk = Some sb) ->
+            (forall q b, nth_error chs' q = Some (VBatch b) -> nth_error (chans s) q = Some (VBatch b)) ->
+            forall s', caches s' = caches s -> delivered s' = delivered s -> polls s' = polls s -> chans s' = chs' ->
+                       works s' = upd w {| wf := f'; wsub := sbo |} (works s) -> Inv4 s').
+  { intros f' sbo chs' Hsb Hch s0 Ec Ed Ep Ech Ew.
+    assert (Hact : forall r, active_at s0 r = active_at s r) by (intros r; unfold active_at; rewrite Ep; reflexivity).
+    apply (Inv4_transfer s s0 HI Ec Ed); rewrite ?Ep, ?Ech.
+    - intros q ql' b Hq Ha Hb. apply Hch in Hb. eauto.
+    - intros q ql sb Hq Hs. left. eauto.
+    - intros w0 wk0 sb Hw0 Hs Ha. rewrite Hact in Ha. rewrite Ew in Hw0. upd_cases Hw0.
+      + cbn in Hs. destruct (Hsb _ Hs) as [E|E]; [right; exact E|left; eauto].
+      + left. eauto. }
+  inversion Hr; subst; clear Hr.
+  - eapply (Hgen (wf wk) None (chans s)); eauto; try reflexivity; discriminate.
+  - eapply (Hgen (wf wk) None (upd (sresp sb) VNil (chans s))); eauto; try reflexivity; try discriminate.
+    intros q b Hq. upd_cases Hq; [discriminate|auto].
+  - (* sub *)
+    destruct (sub_rel_hw _ _ _ _ (o_hw s HI) H1) as (Hle & Ed & Hhw & Hcont).
+    destruct (sub_rel_eff _ _ _ _ H1) as (Ep & Er & Ew & Ec & Eo).
+    destruct (i_held s HJ _ _ _ Hw H) as (plr & A' & B' & C' & D' & E').
+    assert (Hact : forall r s0, polls s0 = polls s1 -> active_at s0 r = active_at s r)
+      by (intros r s0 E0; unfold active_at; rewrite E0, Ep; reflexivity).
+    constructor; sproj; rewrite ?Ed; auto.
+    + intros q ql b e Hq Ha Hb Hin. rewrite Ep in Hq.
+      destruct Ec as [(Ec & _)|(v & Hc' & Ec & Hv & Ho)]; rewrite Ec in Hb.
+      * eapply hw_ok_mono; [exact Hle|]. eapply o_chan; eauto.
+      * destruct (Nat.eq_dec (sresp sb) q) as [<-|Hne].
+        -- assert (b = sres sb).
+           { eapply (sub_rel_batch s sb s1 o); eauto. rewrite Ec. exact Hb. }
+           subst b. eapply hw_ok_mono; [exact Hle|]. eapply o_wsub; eauto.
+           unfold active_at. rewrite Hq. exact Ha.
+        -- rewrite nth_error_upd_neq in Hb by exact Hne.
+           eapply hw_ok_mono; [exact Hle|]. eapply o_chan; eauto.
+    + intros q ql sb0 e Hq Hs Hin. rewrite Ep in Hq. eapply hw_ok_mono; [exact Hle|]. eapply o_psub; eauto.
+    + intros w0 wk0 sb0 e Hw0 Hs Ha Hin. rewrite (Hact _ _ eq_refl) in Ha.
+      upd_cases Hw0.
+      * cbn in Hs. destruct o as [sb'|[|]]; try discriminate; inversion Hs; subst.
+        -- destruct (Eo sb0 eq_refl) as (X & Y & Z). rewrite Y in Ha.
+           eapply Hcont; eauto. intros e0 Hin0. eapply o_wsub; eauto.
+        -- cbn in Ha, Hin. eapply hw_ok_mono; [exact Hle|]. eapply o_wsub; eauto.
+      * eapply hw_ok_mono; [exact Hle|].
+        destruct Ew as [Ew|(f & Ew)]; rewrite Ew in Hw0; [eapply o_wsub; eauto|].
+        snoc_cases Hw0; [eapply o_wsub; eauto|discriminate].
+  - eapply (Hgen f' None (chans s)); eauto; try reflexivity; discriminate.
+  - (* append *)
+    set (ca' := {| cown := cown ca; cmsgs := cmsgs ca ++ [m]; ctaken := ctaken ca; cdel := cdel ca |}).
+    assert (Hle : cd_le (caches s) (upd c ca' (caches s))).
+    { eapply cd_le_upd; eauto. exists []. cbn. rewrite app_nil_r. reflexivity. }
+    assert (Hact : forall r s0, polls s0 = polls s -> active_at s0 r = active_at s r)
+      by (intros r s0 E0; unfold active_at; rewrite E0; reflexivity).
+    destruct HI as [A B C D].
+    constructor; sproj.
+    + intros c0 cb Hcb. upd_cases Hcb; [|auto]. apply (A _ _ H1).
+    + intros q ql b e Hq Ha Hb Hin. eapply hw_ok_mono; eauto.
+    + intros q ql sb0 e Hq Hs Hin. eapply hw_ok_mono; eauto.
+    + intros w0 wk0 sb0 e Hw0 Hs Ha Hin. rewrite (Hact _ _ eq_refl) in Ha.
+      upd_cases Hw0; [discriminate|]. eapply hw_ok_mono; eauto.
+  - eapply (Hgen f' None (chans s)); eauto; try reflexivity; discriminate.
+  - eapply (Hgen f' (Some (sub0 id r)) (chans s)); eauto; try reflexivity.
+    intros sb E. inversion E. left. reflexivity.
+  - eapply (Hgen (WSub id tp SubLoad) None (chans s)); eauto; try reflexivity; discriminate.
+  - (* store *)
+    pose proof (cd_le_snoc (caches s) {| cown := (id, tp); cmsgs := []; ctaken := []; cdel := 0 |}) as Hle.
+    assert (Hact : forall r s0, polls s0 = polls s -> active_at s0 r = active_at s r)
+      by (intros r s0 E0; unfold active_at; rewrite E0; reflexivity).
+    destruct HI as [A B C D].
+    constructor; sproj.
+    + intros c0 cb Hcb. snoc_cases Hcb; [auto|]. split; [cbn; lia|]. cbn.
+      rewrite dmsgs_nil_fresh; [constructor|].
+      intros id0 e Hin Heq. destruct (t_del s HD _ _ Hin) as (ca0 & _ & _ & Hc0 & _).
+      apply nth_error_lt in Hc0. lia.
+    + intros q ql b e Hq Ha Hb Hin. eapply hw_ok_mono; eauto.
+    + intros q ql sb0 e Hq Hs Hin. eapply hw_ok_mono; eauto.
+    + intros w0 wk0 sb0 e Hw0 Hs Ha Hin. rewrite (Hact _ _ eq_refl) in Ha.
+      upd_cases Hw0; [discriminate|]. eapply hw_ok_mono; eauto.
+  - eapply (Hgen (WOff id todo res OffResp) None (chans s)); eauto; try reflexivity; discriminate.
+  - eapply (Hgen (WHb id sg HbWait) None (chans s)); eauto; try reflexivity; discriminate.
+Qed.
+
+Lemma Inv4_step s t s' : Inv1 s -> Inv2 s -> Inv4 s -> step_rel s t s' -> Inv4 s'.
+Proof.
+  intros HJ HD HI H. inversion H; subst.
+  - apply (Inv4_transfer s _ HI); sproj; auto.
+    + intros q ql' b Hq Ha Hb. eauto.
+    + intros w wk sb Hw Hs Ha. left. snoc_cases Hw; [eauto|discriminate].
+  - apply (Inv4_transfer s _ HI); sproj; auto.
+    + intros q ql' b Hq Ha Hb. snoc_cases Hq.
+      * snoc_cases Hb; [eauto|discriminate].
+      * snoc_cases Hb; [|discriminate]. pose proof (i_len s HJ). lia.
+    + intros q ql sb Hq Hs. snoc_cases Hq; [eauto|discriminate].
+    + intros w wk sb Hw Hs Ha. left. exists wk. repeat split; auto.
+      unfold active_at in *. sproj.
+      destruct (nth_error (polls s ++ [{| pid := id; ppc := LPopOld |}]) (sresp sb)) as [pl|] eqn:E; [|discriminate].
+      destruct (i_held s HJ _ _ _ Hw Hs) as (plr & A & _). rewrite (nth_error_snoc_old _ _ _ _ A) in E.
+      inversion E; subst. rewrite A. exact Ha.
+  - eapply Inv4_poll_step; eauto.
+  - eapply Inv4_work_step; eauto.
+Qed.
+
+Record InvAll (s : state) : Prop := { ia1 : Inv1 s; ia2 : Inv2 s; ia4 : Inv4 s }.
+
+Lemma InvAll_step s t s' : InvAll s -> step_rel s t s' -> InvAll s'.
+Proof.
+  intros [A B C] H. constructor; [eapply Inv1_step|eapply Inv2_step|eapply Inv4_step]; eauto.
+Qed.
+
+Lemma InvAll_reach s : reach s -> InvAll s.
+Proof.
+  induction 1; [constructor; [apply Inv1_init|apply Inv2_init|apply Inv4_init]|eapply InvAll_step; eauto].
+Qed.
